@@ -102,7 +102,9 @@ pub fn gen_c14(em: &mut Emitter, rng: &mut Rng) {
         ever.push(y);
         let mut y_deleted_at: Option<usize> = None;
         for bi in 0..nb {
-            let na = rng.below(5) as usize;
+            // one batch in six is a no-op epoch (nothing added, nothing deleted: an empty coefficient list)
+            let noop = rng.chance(1, 6);
+            let na = if noop { 0 } else { rng.below(5) as usize };
             let mut adds = vec![];
             while adds.len() < na {
                 let e = small_elem(rng);
@@ -112,21 +114,21 @@ pub fn gen_c14(em: &mut Emitter, rng: &mut Rng) {
                 }
             }
             let mut dels = vec![];
-            let nd = (rng.below(5) as usize).min(set.len());
+            let nd = if noop { 0 } else { (rng.below(5) as usize).min(set.len()) };
             let mut cand: Vec<Element> = set.iter().cloned().filter(|e| *e != y).collect();
             rng.shuffle(&mut cand);
             for e in cand.into_iter().take(nd) {
                 dels.push(e);
             }
             // delete the tracked element itself in some histories
-            if tracked_inside && y_deleted_at.is_none() && rng.chance(1, 6) {
+            if !noop && tracked_inside && y_deleted_at.is_none() && rng.chance(1, 6) {
                 let pos = rng.below(dels.len() as u64 + 1) as usize;
                 dels.insert(pos, y);
                 y_deleted_at = Some(bi);
             }
             // an element both added and deleted in the same batch (net no-op on the value, but present in the
             // published lists): a fresh one, or a current member other than y
-            if rng.chance(1, 4) {
+            if !noop && rng.chance(1, 4) {
                 if rng.coin() && !adds.is_empty() {
                     let e = adds[rng.below(adds.len() as u64) as usize];
                     let pos = rng.below(dels.len() as u64 + 1) as usize;
